@@ -179,7 +179,10 @@ fn main() {
                 ctx.case(line, true, "corpus");
             }
         }
-        gen::generate(&prop, &mut ctx);
+        let aborted = std::panic::catch_unwind(std::panic::AssertUnwindSafe(|| gen::generate(&prop, &mut ctx))).is_err();
+        if aborted {
+            ctx.monitor(false, "generator-aborted", "-", "the case generator itself panicked while driving the implementation; cases emitted so far are kept");
+        }
         ctx.cases.flush().unwrap();
         ctx.imp.flush().unwrap();
         ctx.mon.flush().unwrap();
